@@ -152,7 +152,7 @@ func Sort(v reflect.Value, swap jtypes.OptionalCallable) (interface{}, error) {
 	case !v.IsValid():
 		return nil, jtypes.ErrUndefined
 	case !jtypes.IsArray(v):
-		if v.CanInterface() {
+		if v = callablePointer(v); v.CanInterface() {
 			return []interface{}{v.Interface()}, nil
 		}
 	case swap.Callable != nil:
@@ -347,11 +347,22 @@ func Zip(vs ...reflect.Value) (interface{}, error) {
 	return result, nil
 }
 
+// callablePointer undoes the dereference made by jtypes.Resolve
+// for a function value. Functions are pointers; the struct they
+// point to is not a function (and not a JSON value).
+func callablePointer(v reflect.Value) reflect.Value {
+	if v.Kind() == reflect.Struct && v.CanAddr() && jtypes.IsCallable(v) {
+		return v.Addr()
+	}
+	return v
+}
+
 func forceArray(v reflect.Value) reflect.Value {
 	v = jtypes.Resolve(v)
 	if !v.IsValid() || jtypes.IsArray(v) {
 		return v
 	}
+	v = callablePointer(v)
 	vs := reflect.MakeSlice(reflect.SliceOf(v.Type()), 0, 1)
 	vs = reflect.Append(vs, v)
 	return vs
